@@ -22,7 +22,7 @@ func (Engine) Plan(property, tier string) core.Plan {
 			"distinct = distinct trace digest; non-trivial = at least one key stored and three operations",
 		Assumptions: []string{
 			"the signature half (a pure function) is checked only as a per-operation oracle on the keys living in the simulated keybase",
-			"every keybase operation issues at most one DB write, so 'crash before the next write' covers every crash point of an operation",
+			"the crash fault fires before the first, second or third DB write of the next operation (today every keybase operation issues one write, so the later points fire only on code that writes more)",
 		}}
 	if tier == "thorough" {
 		p.Runs = 12000
@@ -53,7 +53,7 @@ func Generate(property, tier string, seed uint64) *Trace {
 	}
 	for i := 0; i < n; i++ {
 		if r.Chance(0.12) {
-			tr.Steps = append(tr.Steps, Step{Op: "crash"})
+			tr.Steps = append(tr.Steps, Step{Op: "crash", K: []int{0, 0, 1, 1, 2}[r.Intn(5)]})
 		}
 		switch r.Pick([]int{4, 4, 4, 3, 5, 4, 3, 2, 2, 2, 2, 3, 4}) {
 		case 0:
